@@ -3,6 +3,7 @@ from __future__ import annotations
 
 from spverif.core.util import attempt, exc_sig, documented_errors, pool_uint, rand_uint, rand_bytes, hist_len
 from spverif.ref import pus as R
+from spverif.props import _views as V
 from spverif.ref.crc import crc16
 
 SCRIBBLE = True
@@ -105,6 +106,14 @@ def k_tc(ctx, route, apid, count, service, subservice, source_id, ack, data, mod
     ok, rp = attempt(u.pack)
     ctx.check("tc.roundtrip", ok and bytes(rp) == want, "repack", "", case)
     ctx.check("tc.roundtrip", u.crc16 is not None and bytes(u.crc16) == want[-2:], "crc16_attr", "", case)
+    # every header view the telecommand object itself offers (constructed and decoded object)
+    V.sp_views(ctx, "tc.delegated_views", t, want, case, f"PusTc/{route}")
+    V.sp_views(ctx, "tc.delegated_views", u, want, case, "PusTc/unpacked")
+    # decoded from a buffer that goes on after the packet: the stored trailer is the packet's, not the buffer's
+    ok, u2 = attempt(tcm.PusTc.unpack, src + (want[:3] if len(want) & 1 else b"\xa5" * 5))
+    if ctx.check("tc.unpack", ok, "raised_with_following_octets", exc_sig(u2) if not ok else "", case, error=repr(u2)):
+        ok, rp = attempt(u2.pack, recalc_crc=False)
+        ctx.check("tc.roundtrip", ok and bytes(rp) == want and bytes(u2.crc16) == want[-2:] and u2 == t, "decoded_from_longer_buffer", "", case, observed=bytes(rp)[-8:] if ok else repr(rp))
 
 
 def _octet_diff(a: bytes, b: bytes) -> str:
@@ -248,13 +257,13 @@ def k_view_history(ctx, seed):
             got = bytes(t.to_space_packet().pack())
         else:
             if op == "apid":
-                f["apid"] = r.getrandbits(11)
+                f["apid"] = rand_uint(r, 11)
                 t.apid = f["apid"]
             elif op == "seq_count":
-                f["count"] = r.getrandbits(14)
+                f["count"] = rand_uint(r, 14)
                 t.seq_count = f["count"]
             elif op == "source_id":
-                f["source_id"] = r.getrandbits(16)
+                f["source_id"] = rand_uint(r, 16)
                 t.source_id = f["source_id"]
             else:
                 f["data"] = r.randbytes(r.randrange(0, 12))
@@ -264,6 +273,7 @@ def k_view_history(ctx, seed):
         what = "space_packet_view" if op == "view" else "pack"
         if "poison" in ops and not any(o in ops for o in ("apid", "seq_count", "source_id", "app_data")):
             what += "_after_failed_operations_on_another_packet"
+        V.sp_views(ctx, "tc.view_history", t, want, dict(case, ops=ops), "PusTc/history")
         if not ctx.check("tc.view_history", got == want, f"{what}_differs_from_current_fields", _octet_diff(got, want) + "/after_field_change" if any(o in ops for o in ("apid", "seq_count", "source_id", "app_data")) else _octet_diff(got, want),
                          dict(case, ops=ops), observed=got, expected=want):
             return
